@@ -24,7 +24,7 @@ CHECKS = {
          "PARTIAL: the solidification update is non-conservative (C02_solid_step_exact_balance_refuted: an insulated field with a conductivity jump changes its heat content in one step of the faithful model) and the 2D model (model/Sn2D.v, one-step correspondence) has no balance theorem: their balance is audited on the implementation (15 % / 10 %). Tied to the code by one-step "
          "binary64 correspondence of the 1D model on saved steps and by evaluating the exact cooling balance on every saved step (observed error 3e-11).",
     ref="6 C02", technique="Rocq proof over R (telescoping sums, field, Coquelicot derivative) + one-step float correspondence + enthalpy audits",
-    note=TB % "c02" + "known finding: 15-30 % imbalance in tall, strongly cooled, partly supercooled vials (front-crossing error of the scheme); 2D (shelf/jacket): one-step correspondence + audit; enthalpy increments use the scheme's constant latent heat."),
+    note=TB % "c02" + "known finding: 12-21 % imbalance for dilute solutions (<= 2 % solute) in strongly cooled, partly supercooled vials (front-crossing error of the scheme); 2D (shelf/jacket): one-step correspondence + audit; enthalpy increments use the scheme's constant latent heat."),
  "C03": dict(
     cat="proof",
     text="Theorems over R (props/C03.v): a vial nucleates in a step iff it is liquid, supercooled after the liquid update and its uniform draw is below "
